@@ -254,7 +254,7 @@ def _shrink_plan_candidates(plan, recorded, cid, op_idx):
             p['clients'] = keep
             rec = None
             if recorded:
-                rec = {'first': remap.get(recorded['first'], 0), 'cache_keys': recorded.get('cache_keys'),
+                rec = {'first': remap.get(recorded.get('first', 0), 0), 'cache_keys': recorded.get('cache_keys'),
                        'switches': [[remap[s[0]], s[1], s[2], remap[s[3]], s[4], s[5]] for s in (recorded.get('switches') or [])
                                     if s[0] in remap and s[3] in remap],
                        'finishes': [[remap[f[0]], remap.get(f[1])] for f in (recorded.get('finishes') or []) if f[0] in remap],
@@ -459,7 +459,10 @@ def run_check(prop, tier, seed, workers, batches=None, runs=None, do_minimise=Tr
                 found.setdefault(v['class'], v)
         for n_class, (vclass, v) in enumerate(sorted(found.items())[:3]):
             if do_minimise and n_class == 0:      # one fully minimised replay; further classes are reported as found
-                runs_min, minfo = minimise(prop, v, seed, tier, ctx, ctx_file, scratch, workers=workers)
+                try:
+                    runs_min, minfo = minimise(prop, v, seed, tier, ctx, ctx_file, scratch, workers=workers)
+                except Exception as e:   # noqa  minimisation is best effort: never lose the violation over it
+                    runs_min, minfo = [{'plan': v['plan'], 'recorded': v['recorded']}], {'minimised': False, 'error': repr(e)}
             else:
                 runs_min, minfo = [{'plan': v['plan'], 'recorded': v['recorded']}], {'minimised': False}
             doc = {'check': prop, 'engine': 'callsim', 'mode': 'runs', 'seed': seed, 'tier': tier, 'class': vclass,
